@@ -70,7 +70,8 @@ Definition applicable_nonneg (t : Z) (us : list update) : bool :=
 
 Definition apply_oracle {C} (ceqb : C -> C -> bool) (spec : Z -> list update -> Z -> C -> C)
            (t : Z) (cs : list C) (us : list update) (o : observed C) : bool :=
-  if negb (applicable_nonneg t us) then true   (* negative index: outside the property *)
+  if negb (applicable_nonneg t us)
+  then (o_status o =? 1) || (o_status o =? 2)   (* a due negative index: an error or a panic, never a success *)
   else if all_in_range t (length cs) us then
     (o_status o =? 0) && list_eqb ceqb (mapi (spec t us) cs) (o_cs o)
     && list_eqb update_eqb (spec_pending t us) (o_us o)
@@ -125,9 +126,12 @@ Definition check_lsat : P (list Z) :=
     | AErr _ _ _ => st =? 1
     | APanic => st =? 2
     end in
+  (* the property, from Spec only: when the way is fully annotated at t (before and after the
+     due updates, all of them in range) both queries give the points of the specified nodes *)
   let j2 :=
-    if fully_annotated ns && updates_ok t (length ns) us
+    if annotated_at t ns us
     then negb panicked && (st =? 0) && list_eqb point_eqb at_ ls
+         && list_eqb point_eqb at_ (map node_point (spec_nodes t us ns))
     else true in
   ret (code_if j1 1 ++ code_if j2 2)%list.
 
@@ -186,25 +190,25 @@ Definition segment_eqb (a b : segment) : bool :=
 
 (* oracle: every returned segment is the geometry of its member's way with the updates applied
    up to [at_] (reversed when flagged), whenever that way meets the agreement hypotheses *)
+(* Spec only: the way of the member, when fully annotated at [at_], contributes exactly the
+   points of its specified nodes (reversed when flagged) *)
 Definition segment_ok (ms : list member) (ws : list way) (at_ : Z) (s : segment) : bool :=
   match nth_error ms (Z.to_nat (s_index s)) with
   | Some m =>
       match find_way (m_ref m) ws with
       | Some w =>
-          if fully_annotated (w_nodes w) && updates_ok at_ (length (w_nodes w)) (w_updates w) then
-            match way_apply at_ (w_nodes w) (w_updates w) with
-            | AOk ns' _ =>
-                list_eqb point_eqb (if s_reversed s then rev (s_line s) else s_line s)
-                         (map node_point (mapi (spec_node at_ (w_updates w)) (w_nodes w)))
-                && list_eqb point_eqb (line_string ns')
-                            (if s_reversed s then rev (s_line s) else s_line s)
-            | _ => false
-            end
+          if annotated_at at_ (w_nodes w) (w_updates w) then
+            list_eqb point_eqb (if s_reversed s then rev (s_line s) else s_line s)
+                     (map node_point (spec_nodes at_ (w_updates w) (w_nodes w)))
           else true
       | None => false
       end
   | None => false
   end.
+
+(* no way can make LineStringAt panic: every due update has a non-negative index *)
+Definition ways_cannot_panic (ws : list way) (at_ : Z) : bool :=
+  forallb (fun w => applicable_nonneg at_ (w_updates w)) ws.
 
 Definition check_group : P (list Z) :=
   at_ <- ptime ;; ms <- plist pmember ;; ws <- plist pway ;;
@@ -215,7 +219,9 @@ Definition check_group : P (list Z) :=
                    && Bool.eqb t tainted
     | GPanic => panicked
     end in
-  let j2 := panicked || forallb (segment_ok ms ws at_) (outer ++ inner) in
+  let j2 :=
+    (if ways_cannot_panic ws at_ then negb panicked else true) &&
+    (panicked || forallb (segment_ok ms ws at_) (outer ++ inner)) in
   ret (code_if j1 1 ++ code_if j2 2)%list.
 
 Definition check_case (t : toks) : list Z :=
